@@ -37,6 +37,7 @@ type chOp struct {
 	Op   string   `json:"op"` // elem elems hash bn254 cap ext exts get getn getext gethash
 	Vals []string `json:"vals,omitempty"`
 	N    int      `json:"n,omitempty"`
+	Chip int      `json:"challenger,omitempty"` // 0 / 1: which of two challengers living in the same circuit performs the operation
 }
 
 type c11Hist struct {
@@ -51,11 +52,15 @@ func runHistory(h c11Hist) (eng.Result, []*big.Int) {
 		in = append(in, unstrs(o.Vals)...)
 	}
 	fn := func(api frontend.API, v []frontend.Variable) []frontend.Variable {
-		c := challenger.NewChip(api)
+		cs2 := [2]*challenger.Chip{challenger.NewChip(api), nil}
 		var out []frontend.Variable
 		p := 0
 		take := func(n int) []frontend.Variable { s := v[p : p+n]; p += n; return s }
 		for _, o := range h.Ops {
+			if cs2[o.Chip] == nil {
+				cs2[o.Chip] = challenger.NewChip(api)
+			}
+			c := cs2[o.Chip]
 			switch o.Op {
 			case "elem":
 				c.ObserveElement(glv(take(1)[0]))
@@ -99,10 +104,11 @@ func runHistory(h c11Hist) (eng.Result, []*big.Int) {
 
 // modelHistory steps ref's duplex challenger through the same history.
 func modelHistory(h c11Hist) []*big.Int {
-	var c ref.Challenger
+	var cs2 [2]ref.Challenger
 	var out []*big.Int
 	for _, o := range h.Ops {
 		vals := unstrs(o.Vals)
+		c := &cs2[o.Chip]
 		switch o.Op {
 		case "elem", "elems", "hash", "ext", "exts":
 			for _, v := range vals {
@@ -407,7 +413,7 @@ func TestC11(t *testing.T) {
 	s := newSuite("C11")
 	r := s.r
 	defer r.Flush()
-	r.Rule("(1) histories of 0..200 challenger operations drawn by rapid from {ObserveElement, ObserveElements, ObserveHash, ObserveBN254Hash, ObserveCap, ObserveExtensionElement(s), GetChallenge, GetNChallenges, GetExtensionChallenge, GetHash} with canonical and value+k*p operands, executed in one circuit and compared squeeze by squeeze with the reference duplex challenger (model-based / stateful testing; the whole history shrinks as one value).  (2) VerifierChip.GetChallenges on the five real proofs and on transcripts of the same shape in which every field element and hash is re-drawn, compared with the reference transcript (betas, gammas, alphas, zeta, FRI alpha, FRI betas, PoW response, query indices); in part of the cases the transcript is derived two or three times on the same VerifierChip and the last result is compared (no state may leak between transcripts); a third of the transcripts uses a configuration variant (proof_of_work_bits in {0, 1, 15, 17, 40, 63} - the difficulty is not part of plonky2's transcript - 1..40 query rounds, or 0, 1, 7, 8, 9, 120 public inputs).  (3) metamorphic: one observed value of a history changed => every squeeze after it changes, none before.  Non-trivial history = contains an observation after a squeeze and more than 8 pending observed elements (crosses the rate boundary); distinct = history.")
+	r.Rule("(1) histories of 0..200 challenger operations drawn by rapid from {ObserveElement, ObserveElements, ObserveHash, ObserveBN254Hash, ObserveCap, ObserveExtensionElement(s), GetChallenge, GetNChallenges, GetExtensionChallenge, GetHash} with canonical and value+k*p operands, executed in one circuit and compared squeeze by squeeze with the reference duplex challenger (model-based / stateful testing; the whole history shrinks as one value); a quarter of the histories is split at random over two challengers living in the same circuit, each compared with its own model.  (2) VerifierChip.GetChallenges on the five real proofs and on transcripts of the same shape in which every field element and hash is re-drawn, compared with the reference transcript (betas, gammas, alphas, zeta, FRI alpha, FRI betas, PoW response, query indices); in part of the cases the transcript is derived two or three times on the same VerifierChip and the last result is compared (no state may leak between transcripts); a third of the transcripts uses a configuration variant (proof_of_work_bits in {0, 1, 15, 17, 40, 63} - the difficulty is not part of plonky2's transcript - 1..40 query rounds, or 0, 1, 7, 8, 9, 120 public inputs).  (3) metamorphic: one observed value of a history changed => every squeeze after it changes, none before.  Non-trivial history = contains an observation after a squeeze and more than 8 pending observed elements (crosses the rate boundary); distinct = history.")
 	r.Assume("reference Poseidon/challenger (validated by accepting the real proofs and reproducing the challenge constants of tests/fri_test.go)")
 
 	s.on("history", func(b json.RawMessage) caseResult {
@@ -476,7 +482,15 @@ func TestC11(t *testing.T) {
 
 	rapidCheck(t, "history", tierN(320, 5000), func(rt *rapid.T) {
 		ops := genHistory().Draw(rt, "history")
-		s.exec(rt, "history", c11Hist{int(genMode().Draw(rt, "mode")), ops}, "history")
+		class := "history"
+		if rapid.IntRange(0, 3).Draw(rt, "two") == 0 {
+			// two challengers living in one circuit, their operations interleaved: each must behave as if alone
+			for i := range ops {
+				ops[i].Chip = rapid.IntRange(0, 1).Draw(rt, "challenger")
+			}
+			class = "history/two-interleaved-challengers"
+		}
+		s.exec(rt, "history", c11Hist{int(genMode().Draw(rt, "mode")), ops}, class)
 	})
 	rapidCheck(t, "meta", tierN(120, 1500), func(rt *rapid.T) {
 		ops := genHistory().Draw(rt, "history")
